@@ -38,6 +38,12 @@ def exPlainWhile : Node :=
   wrapF (.while_ (.binop "<" (.id "x") (.const "int" "10"))
     (.compound (some [.assign "=" (.id "y") (.binop "+" (.id "y") (.const "int" "1"))])))
 
+/-- `return x++;` -/
+def witEffectfulReturn : Node := wrapF (.ret (some (.unop "p++" (.id "x"))))
+
+/-- `return x + y;` -/
+def exPlainReturn : Node := wrapF (.ret (some (.binop "+" (.id "x") (.id "y"))))
+
 /-- `x = - -y;` -/
 def witNestedUnary : Node := wrapF (.assign "=" (.id "x") (.unop "-" (.unop "-" (.id "y"))))
 
@@ -65,14 +71,15 @@ def witIncDecOfConst : Node := wrapF (.assign "=" (.id "x") (.unop "++" (.const 
 def witIllShaped : Node := wrapF .typeDecl
 
 macro "cov_eval" : tactic => `(tactic|
-  simp [witEffectfulCond, witEffectfulWhile, exPlainWhile, witNestedUnary, witNestedUnaryCasts, witUnaryOfCastExpr, witIncDecOfConst,
+  simp [witEffectfulCond, witEffectfulWhile, exPlainWhile, witEffectfulReturn, exPlainReturn, witNestedUnary, witNestedUnaryCasts, witUnaryOfCastExpr, witIncDecOfConst,
     witIllShaped, exNotOfNeg, exNotOfInc, emptyF, wrapF, coverage, covN, covList, covSlot, allowRhs,
     allowOperand, nestedOk, Gen.incDec, hasEffect, covBody, Node.isId, Node.isUnop,
     Node.isBinop, Node.isConst, Node.isCast, Node.rmCast1, Node.rmCast, Gen.binOps, Gen.uOps, bind,
     Except.bind, pure, Except.pure])
 
 macro "unmod_eval" : tactic => `(tactic|
-  simp [witIncDecOfConst, witIllShaped, exNotOfNeg, wrapF, Spec.unmodellable,
+  simp [witIncDecOfConst, witIllShaped, exNotOfNeg, exPlainReturn, wrapF, Spec.unmodellable,
+    Spec.changesVariable, Spec.changesVariableO,
     Spec.unmodellableL, Spec.desugar, Spec.hasSideEffect, Node.rmCast, Spec.describe, Node.cls])
 
 /-! a condition that changes a variable makes the statement unsupported (formerly accepted:
@@ -84,6 +91,12 @@ example : Spec.effectfulConds witEffectfulWhile = ["While"] := by decide
 example : coverage witEffectfulWhile = .ok (1, emptyF) := by cov_eval
 example : coverage exPlainWhile = .ok (0, exPlainWhile) := by cov_eval
 example : Spec.effectfulConds exPlainWhile = [] := by decide
+
+/-! `return x++;` changes `x`: unsupported (formerly accepted); `return x + y;` is supported and
+    readable -/
+example : coverage witEffectfulReturn = .ok (1, emptyF) := by cov_eval
+example : coverage exPlainReturn = .ok (0, exPlainReturn) := by cov_eval
+example : Spec.unmodellable exPlainReturn = [] := by unmod_eval
 
 /-! `x = - -y` (formerly accepted: a nested unary operand is now accepted only under `!` /
     `sizeof`, and only if it is not `++`/`--`) is charged and removed by the syntax check;
